@@ -253,6 +253,9 @@ def r5_axis_roles(rule, root=None):
             rule.bad("affine|frame", "the affine frame must be computed from the current frame's (x, y, z) and pushed as (x, y, z)", A.where(fn))
 
 
+from .. import factrules as FR
+
+
 def run(ctx):
     r = ctx.rule("R1", "RemapAffine / RemapAxes nodes are constructed only by the flattening builder API", 2)
     ctx.guarded(r, r1_who_constructs)
@@ -264,3 +267,5 @@ def run(ctx):
     ctx.guarded(r, r4_cache_keys)
     r = ctx.rule("R5", "axes read their own component of the innermost frame; affine rows combine columns with axes in order", 8)
     ctx.guarded(r, r5_axis_roles)
+    r = ctx.rule("R1f", "[resolved program] RemapAffine / RemapAxes aggregates occur only in the builder API", 2)
+    ctx.guarded(r, FR.remap_constructors, ctx)
